@@ -188,7 +188,8 @@ deriving DecidableEq, Repr
 
 /-- What one transaction works on: its private DAO layer. A transaction can read and write contract
     storage and the Policy cache, can read the cached committee (CheckCommittee), and can only *set* the
-    NEO cache's votesChanged flag (`touched`; no native method reads the flag, native_neo.go:944,983,1128). -/
+    NEO cache's votesChanged flag (`touched`; no native method reads the flag, native_neo.go:944,983,1128,
+    policy.go:723-731). -/
 structure TxView where
   st : Storage
   pol : PolicyCache
@@ -274,12 +275,13 @@ def voteInternal (w : TxView) (acc : Acct) (to : Option Key) : Option TxView :=
 /-- NEO.RevokeVotes (native_neo.go:1036-1041); an error is ignored by the caller (policy.go:694-698). -/
 def revokeVotes (w : TxView) (a : Acct) : TxView := (voteInternal w a none).getD w
 
-/-- Policy.BlockAccountInternal (policy.go:668-703) with the Faun vote revocation. -/
+/-- Policy.BlockAccountInternal (policy.go:668-704) with the Faun vote revocation; a new entry of the blocked
+    list marks the committee outdated (markCommitteeOutdated, policy.go:723-731: sets NeoCache.votesChanged). -/
 def blockInternal (w : TxView) (a : Acct) : TxView × Bool :=
   if w.pol.blocked.contains a then (w, false) else
   let w := revokeVotes w a
   ({ w with st := { w.st with blocked := a :: w.st.blocked },
-            pol := { w.pol with blocked := a :: w.pol.blocked } }, true)
+            pol := { w.pol with blocked := a :: w.pol.blocked }, touched := true }, true)
 
 def execOp (w : TxView) (tx : Tx) : TxView × Res :=
   match tx.op with
@@ -336,7 +338,8 @@ def execOp (w : TxView) (tx : Tx) : TxView × Res :=
     if !checkCommittee w tx then (w, .fault)
     else if !w.pol.blocked.contains a then (w, .haltFalse)
     else ({ w with st := { w.st with blocked := w.st.blocked.filter (· != a) },
-                   pol := { w.pol with blocked := w.pol.blocked.filter (· != a) } }, .haltTrue)
+                   pol := { w.pol with blocked := w.pol.blocked.filter (· != a) },
+                   touched := true }, .haltTrue)  -- markCommitteeOutdated
   | .deploy c =>
     if w.st.deployed.contains c then (w, .fault)
     else ({ w with st := { w.st with deployed := c :: w.st.deployed } }, .halt)
